@@ -2018,6 +2018,8 @@ class unyt_array(np.ndarray):
                 and u0 is not u1
                 and u0 != u1
                 and u0.same_dimensions_as(u1)
+                and not u0.base_offset
+                and not u1.base_offset
             ):
                 # floor(a / b) does not commute with a change of scale, so
                 # commensurable operands are brought to the same (smaller)
